@@ -474,6 +474,9 @@ class _Exporter:
         else:
             else_branch, then_branch = atts[1].g, atts[0].g
 
+        # Constants inlined in a branch are not visible outside it: the other branch may
+        # use the same name for another value.
+        outer_constants = dict(self.constants)
         code.append(
             self._translate_graph_body(
                 then_branch,
@@ -482,6 +485,7 @@ class _Exporter:
             )
         )
         code.extend(self._emit_assign(node.output, then_branch.output, indent + 1))
+        self.constants = dict(outer_constants)
 
         code.append(f"{sindent}else:")
         code.append(
@@ -492,6 +496,7 @@ class _Exporter:
             )
         )
         code.extend(self._emit_assign(node.output, else_branch.output, indent + 1))
+        self.constants = outer_constants
         return "\n".join(code)
 
     def _emit_assign(self, lhs, rhs, indent):
@@ -524,6 +529,14 @@ class _Exporter:
 
     def _translate_loop(self, node, opsets, indent=0):
         """Translates a node Loop into python."""
+        # Constants inlined in the body are not visible after the loop (see _translate_if)
+        outer_constants = dict(self.constants)
+        try:
+            return self._translate_loop_scoped(node, opsets, indent)
+        finally:
+            self.constants = outer_constants
+
+    def _translate_loop_scoped(self, node, opsets, indent=0):
         body = node.attribute[0].g
         sindent = _SINGLE_INDENT * indent
         rows = []
